@@ -270,7 +270,7 @@ class AsyncFIXConnection:
         msg_raw = encoded_msg.replace(b"\x01", b"|")
         self.log.debug(
             f"[{self._connection_role.name}]:send_msg ({self._connection_state.name})"
-            f" {repr(msg.msg_type)}\n\t {msg_raw.decode()}\n"
+            f" {repr(msg.msg_type)}\n\t {msg_raw.decode('latin-1')}\n"
         )
 
         self._journaler.persist_msg(
